@@ -22,6 +22,7 @@ pub fn dispatch(ctx: &Ctx, rest: &[String]) -> i32 {
         "C04" => c04::run(ctx),
         "C05" => c05::run(ctx),
         "C06" => c06::run(ctx),
+        "C11" => c11::run(ctx),
         "C16" => c16::run(ctx),
         "C06-child" => c06::child(ctx, rest),
         other => {
@@ -180,6 +181,7 @@ pub mod c03;
 pub mod c04;
 pub mod c05;
 pub mod c06;
+pub mod c11;
 pub mod c16;
 pub mod hist;
 pub mod histcheck;
